@@ -101,8 +101,11 @@ func (t *Timer) ScheduleRepeating(repeat time.Duration, cb func()) error {
 		ccb = func() {
 			t.inRepeating = true
 			cb()
+			// Cancel clears inRepeating: the series was cancelled from inside its callback. `cancelled` alone does not
+			// tell, a ScheduleOnce that ran at once (non-positive delay) after that Cancel has cleared it again.
+			cancelledInCallback := !t.inRepeating
 			t.inRepeating = false
-			if t.cancelled {
+			if t.cancelled || cancelledInCallback {
 				t.cancelled = false
 			} else {
 				// TODO this error should not be ignored
